@@ -204,6 +204,10 @@ theorem C17_codec_methods_are_plain : Skeleton.current.msgCodecPlain = true := b
 theorem C17_error_member_reflects_the_returned_error :
     Skeleton.current.ucResultsUntouched = true ∧ Skeleton.current.clNilErrorViaIsNil = true := by decide
 
+/-- A `CallClosure` request whose closure PANICS (a runtime error included) is answered with a response frame carrying the panic's message: `utils.Call` recovers every panic and re-raises none — every `panic(…)` of the library hands on a tested error, a sentinel or a context's error (checked against the regenerated skeleton; `utils/call.go` is outside this property's anchors). -/
+theorem C17_a_failing_closure_is_answered :
+    Skeleton.current.ucRecovers = true ∧ Skeleton.current.ucNonErrorPanicMapped = true ∧ Skeleton.current.panicSitesCanonical = true ∧ Skeleton.current.clCallViaUtilsCall = true := by decide
+
 end Panrpc.Wire
 
 #print axioms Panrpc.Wire.C17_closure_arglist_is_array
@@ -217,3 +221,4 @@ end Panrpc.Wire
 #print axioms Panrpc.Wire.C17_frame_struct_per_iteration
 #print axioms Panrpc.Wire.C17_codec_methods_are_plain
 #print axioms Panrpc.Wire.C17_error_member_reflects_the_returned_error
+#print axioms Panrpc.Wire.C17_a_failing_closure_is_answered
